@@ -3,8 +3,10 @@
 use crate::report::Report;
 use crate::Args;
 
+pub mod faultmon;
 pub mod graphdump;
 pub mod jobgen;
+pub mod latmon;
 pub mod linkmon;
 pub mod loopmon;
 pub mod scripts;
@@ -32,6 +34,8 @@ pub fn dispatch(args: &Args, report: &mut Report) {
                 scripts::run_reorder(args, report);
             }
         }
+        "C18" => latmon::run(args, report),
+        "C20" => faultmon::run(args, report),
         "C04" => termination::run(args, report),
         "C06" => scripts::run_c06(args, report),
         "C17" => scripts::run_c17(args, report),
